@@ -31,8 +31,17 @@ func init() {
 	}
 	genAnyDocProjectImpl = func(t *rapid.T) vlib.Project {
 		doc := vlib.GenDoc(t, vlib.GenOpts{Macros: rapid.Bool().Draw(t, "macros")})
-		if rapid.Bool().Draw(t, "faulty") {
+		switch rapid.IntRange(0, 3).Draw(t, "faulty") {
+		case 1:
 			doc = injectAnyFault(t, doc)
+		case 2:
+			if d2, _, ok := vlib.InjectSchemaConfusion(t, doc); ok {
+				doc = d2
+			}
+		case 3:
+			if d2, ok := vlib.InjectBodyFault(t, doc); ok {
+				doc = d2
+			}
 		}
 		st := genStyle(t, !doc.HasMultilineFreeText())
 		return vlib.Single(vlib.Render(doc, st).Text)
